@@ -18,7 +18,7 @@
 (***************************************************************************)
 EXTENDS Orca, TLC
 
-CONSTANTS Keys, Clients, PortOf, Locked, MultiReader, LockOf, MaxCmds, FaultBudget
+CONSTANTS Keys, Clients, PortOf, Locked, MultiReader, LockOf, MaxCmds, FaultBudget, DisjointKeys
 
 VARIABLES l1, l2, ref, pc, cmd, tmp, out, exp, wlock, rlock, left, faults, bad
 vars == <<l1, l2, ref, pc, cmd, tmp, out, exp, wlock, rlock, left, faults, bad>>
@@ -43,6 +43,8 @@ PortMainBatch == [c \in Clients |-> IF c = "c1" THEN "main" ELSE "batch"]
 PortAllMain   == [c \in Clients |-> "main"]
 PortAllBatch  == [c \in Clients |-> "batch"]
 PortMixed3    == [c \in Clients |-> IF c = "c3" THEN "batch" ELSE "main"]
+\* with DisjointKeys every client works on its own key (C14: no interference between connections)
+OwnKey(c) == IF c = "c1" THEN "k1" ELSE IF c = "c2" THEN "k2" ELSE "k3"
 LockOne == [k \in Keys |-> 0]
 LockTwo == [k \in Keys |-> IF k = "k1" THEN 0 ELSE 1]
 
@@ -60,6 +62,7 @@ Fits(x) == x.op = "append" => (IF ref[x.k] = None THEN TRUE ELSE Len(ref[x.k].v)
 
 Begin(c, x) ==
   /\ pc[c] = PIdle /\ left[c] > 0 /\ Fits(x)
+  /\ (DisjointKeys => x.k = OwnKey(c))
   /\ cmd' = [cmd EXCEPT ![c] = x] /\ left' = [left EXCEPT ![c] = @ - 1]
   /\ out' = [out EXCEPT ![c] = <<>>] /\ tmp' = [tmp EXCEPT ![c] = NoTmp]
   /\ pc' = [pc EXCEPT ![c] = IF Locked THEN PLock ELSE PLin]
